@@ -2,6 +2,7 @@
 // from several initial states and parameter vectors, against a dense reference model; final
 // re-optimisation judged by the exact oracle on the *model* LP.
 #include "vx_history.hpp"
+#include "vx_planted.hpp"
 #include <unordered_map>
 using namespace vx;
 
@@ -11,9 +12,12 @@ static std::vector<ConfigSpace::Cfg> g_cfgs;
 struct Init { const char* name; int kind; };
 static const Init INITS[] =
 {
-   {"empty", 0}, {"loaded", 1}, {"solved", 2}, {"solved-infeasible", 3}, {"basis-set-unsolved", 4}, {"aborted-iter0", 5}, {"solved-3x2", 6}
+   {"empty", 0}, {"loaded", 1}, {"solved", 2}, {"solved-infeasible", 3}, {"basis-set-unsolved", 4}, {"aborted-iter0", 5}, {"solved-3x2", 6},
+   // medium-size planted LPs (vx_planted.hpp), solved: 10 columns x 8 rows (column representation under the default) and 8 columns x 12 rows, degenerate, maximisation
+   // (row representation under the default); the final re-optimisation is then judged against freshly built objects holding the final LP (the statement's own oracle)
+   {"solved-planted-10x8", 7}, {"solved-planted-8x12", 8}
 };
-static const int NINIT = 7;
+static const int NINIT = 9;
 
 static const char* BASE = "n=2;m=2;max=1;off=3;c=1,2;lo=0,0;up=4,inf;lhs=-inf,-1;rhs=4,2;A=8,1|0.5,-2";
 static const char* BASE_INF = "n=2;m=2;max=0;off=3;c=1,1;lo=0,0;up=inf,inf;lhs=-inf,2;rhs=1,inf;A=1,1|1,1";
@@ -26,6 +30,16 @@ static void make_init(SoPlex& spx, Model& mo, int kind, const ConfigSpace::Cfg& 
    g_cs.apply(spx, cfg);
    mo = Model();
    if(kind == 0) return;
+   if(kind == 7 || kind == 8)
+   {
+      PlantedSpec sp;
+      PlantedSpec::parse(kind == 7 ? "P:0:10:8:40:0:0:0" : "P:3:8:12:40:1:1:0", sp);
+      PlantedLP P = planted(sp);
+      load_real(spx, P.lp, 0);
+      mo = Model::from(P.lp);
+      spx.optimize();
+      return;
+   }
    TinyLP lp = TinyLP::parse(kind == 3 ? BASE_INF : kind == 6 ? BASE32 : BASE);
    load_real(spx, lp, 0);
    mo = Model::from(lp);
@@ -158,7 +172,9 @@ static uint64_t run_seq(const Seq& s, Ctx& c, Model* out, bool finalSolve)
    // (4) re-optimise and compare with the exact optimum of the model LP
    if(finalSolve && mo.n() > 0)
    {
-      const Classification& cl = classify_cached(mo.tiny());
+      const bool medium = mo.n() + mo.m() > 8;      // no basis enumeration: reference = two freshly built objects holding the final LP
+      static Classification noClass;
+      const Classification& cl = medium ? noClass : classify_cached(mo.tiny());
       int st = 0;
       // warm-start condition that is part of the signature: a nonbasic free row / column in the basis the re-solve starts from
       std::string tag;
@@ -181,7 +197,29 @@ static uint64_t run_seq(const Seq& s, Ctx& c, Model* out, bool finalSolve)
       double obj = spx.objValueReal();
       h = h * 31 + st;
       std::string why;
-      if(cl.hasopt)
+      if(medium)
+      {
+         // "the same status and the same optimal value as a newly constructed solver that is given the final LP directly": one fresh object under the same parameter vector,
+         // one without simplifier and scaler; if those two disagree with each other nothing is judged (that would be C01's business)
+         TinyLP fin = mo.tiny();
+         int rst[2]; double robj[2];
+         for(int r = 0; r < 2; ++r)
+         {
+            SoPlex ref;
+            quiet(ref);
+            if(r == 0) g_cs.apply(ref, g_cfgs[s.cfg]);
+            else { ref.setIntParam(SoPlex::SIMPLIFIER, SoPlex::SIMPLIFIER_OFF); ref.setIntParam(SoPlex::SCALER, SoPlex::SCALER_OFF); }
+            load_real(ref, fin, 0);
+            rst[r] = (int)ref.optimize();
+            robj[r] = ref.objValueReal();
+         }
+         c.count("reoptimisations_judged_against_fresh_objects");
+         bool refsAgree = (rst[0] == 1) == (rst[1] == 1) && (rst[0] != 1 || fabs(robj[0] - robj[1]) <= 1e-6 * (1 + fabs(robj[1])));
+         if(!refsAgree) c.count("fresh_references_disagree");
+         else if((st == 1) != (rst[1] == 1) && ((st >= 1 && st <= 3) || st < 0)) why = "re-optimisation returned status " + std::to_string(st) + ", freshly built objects holding the final LP return status " + std::to_string(rst[0]) + " / " + std::to_string(rst[1]);
+         else if(st == 1 && fabs(obj - robj[1]) > 1e-6 * (1 + fabs(robj[1]))) why = "re-optimised objective " + TinyLP::num(obj) + ", freshly built objects holding the final LP: " + TinyLP::num(robj[1]);
+      }
+      else if(cl.hasopt)
       {
          if(st != 1) why = std::string("model LP has optimum ") + cl.opt.get_str() + " but re-optimisation returned status " + std::to_string(st);
          else if(fabs(obj - cl.opt.get_d()) > 1e-6 * (1 + fabs(cl.opt.get_d()))) why = "re-optimised objective " + TinyLP::num(obj) + " != optimum of the model LP " + cl.opt.get_str();
@@ -192,7 +230,7 @@ static uint64_t run_seq(const Seq& s, Ctx& c, Model* out, bool finalSolve)
          else if(st == 3 && cl.feasible) why = "INFEASIBLE for a feasible model LP";
       }
       if(!why.empty())
-         c.violation(sig_of("reoptimize-wrong", s) + tag, s.str(), why + " | model=" + mo.tiny().str() + " | " + s.pretty());
+         c.violation(sig_of("reoptimize-wrong", s) + tag, s.str(), why + (medium ? std::string("") : " | model=" + mo.tiny().str()) + " | " + s.pretty());
       // and the basis after the solve
       if(spx.hasBasis())
       {
@@ -201,7 +239,7 @@ static uint64_t run_seq(const Seq& s, Ctx& c, Model* out, bool finalSolve)
       }
    }
    if(c.wantSample() && s.ops.size() >= 2 && (fnv_str(s.str()) % 997) == 0)
-      c.sample("{\"sequence\":" + jstr(s.pretty()) + ",\"model_reached\":" + mo.tiny().json() + "}");
+      c.sample("{\"sequence\":" + jstr(s.pretty()) + ",\"model_reached\":" + (mo.n() + mo.m() > 8 ? jstr(std::to_string(mo.n()) + " columns x " + std::to_string(mo.m()) + " rows") : mo.tiny().json()) + "}");
    return h;
 }
 
